@@ -867,7 +867,7 @@ class Engine:
         cs = st.clone(); cs.env = dict(env); cs.scope = None; cs.ghost = {}
         for gt, gn in sp.ghosts:
             cs.ghost[gn] = self.fresh_val({'real': 'double', 'double': 'double', 'int': 'int', 'uint': 'uint', 'bool': 'bool'}.get(gt, gt), 'g.' + gn, cs, constrain=False)
-            if gn in st.ghost and self.cur is sp: cs.ghost[gn] = st.ghost[gn]
+            if gn in st.ghost: cs.ghost[gn] = st.ghost[gn]     # ghost arguments are passed by name
         for p in f.params:
             if p[1] == 'fun' and isinstance(env.get(p[0]), Fun): pass
         who = 'call %s: ' % f.qual
